@@ -419,7 +419,7 @@ def gl7(prog):
 
 def run(prog):
     a, getfn = gl1(prog)
-    return a + gl2(prog, getfn) + gl3(prog) + gl4(prog) + gl5(prog) + gl6(prog) + gl7(prog) + gl8(prog)
+    return a + gl2(prog, getfn) + gl3(prog) + gl4(prog) + gl5(prog) + gl6(prog) + gl7(prog) + gl8(prog) + gl9(prog)
 
 
 def _resolve(t, d):
@@ -464,4 +464,65 @@ def gl8(prog):
                 errs.append("for %s a result is stored under %s but looked up under %s" % (vname, show(ki)[:90], show(kg)[:90]))
         out.append(inst("GL", "%s:GL8:store-key=lookup-key" % adt, VIOLATION if errs else OK, fi, ci.line,
                         "; ".join(errs) if errs else "insert and get use the same key term for both Ite variants"))
+    return out
+
+
+
+LOOKUPS = ("get", "get_mut", "ite_cache_get", "app_cache_get")
+
+
+def gl9(prog):
+    """GL9  a memo that outlives the call (a table held in a field of the builder / cache object, or reached through
+    the builder's cache accessors) whose hit is *returned* must be keyed by every parameter the memoising function
+    uses: a result that depends on a parameter missing from the key is replayed for a different value of it later
+    (per-call maps are GL6's business)."""
+    from .dt import leaves
+    out = []
+    n = 0
+    for f in prog.lib_fns:
+        if "::test" in f.npath or f.name.startswith("test") or f.npath.startswith("util::hypergraph") or \
+                not any(b["term"]["k"] == "call" for b in f.blocks):
+            continue
+        te = f.terms
+        rets = [strip(a) for a in leaves(te.ret)]
+        for cs in te.calls:
+            if cs.callee.name not in LOOKUPS or not cs.args:
+                continue
+            recv = strip(cs.args[0])
+            persistent = ("arg1." in show(recv) and recv != ("param", 1)) or \
+                (cs.callee.name.endswith("cache_get") and recv == ("param", 1))
+            if not persistent:
+                continue
+            me = show(("call", cs.callee, tuple(cs.args)))
+            if not any(me in show(r) for r in rets):
+                continue
+            n += 1
+            keyargs = cs.args[1:]
+            inkey = set()
+            for a in keyargs:
+                for x in mir.subterms(a):
+                    if x[0] == "param":
+                        inkey.add(x[1])
+            # parameters the function uses anywhere else
+            used = set()
+            for c2 in te.calls:
+                if c2 is cs:
+                    continue
+                for a in c2.args:
+                    for x in mir.subterms(a):
+                        if x[0] == "param":
+                            used.add(x[1])
+            for b, (c, _) in te.switch_term.items():
+                for x in mir.subterms(c):
+                    if x[0] == "param":
+                        used.add(x[1])
+            missing = sorted(p for p in used if p != 1 and p not in inkey)
+            names = [f.arg_name(p) or ("arg%d" % p) for p in missing]
+            out.append(inst("GL", "%s:GL9:memo-key-complete" % f.npath, VIOLATION if missing else OK, f, cs.line,
+                            ("a hit of the persistent memo %s is returned, but its key (%s) does not contain the parameter(s) %s "
+                             "that the function's result depends on: a later call with another value gets the stale result"
+                             % (show(recv)[:40], ", ".join(show(a)[:40] for a in keyargs), names)) if missing else
+                            "key of the persistent memo mentions every parameter used (%s)" % sorted(inkey)))
+    if n < 5:
+        raise CheckerError("GL9: only %d persistent memo lookups recognised (expected >= 5)" % n)
     return out
